@@ -277,7 +277,7 @@ func (f *fetcher) getFromCacheOrFetch(req *http.Request, key cache.CacheKey, cli
 		up.Header.Set("If-None-Match", cached.Metadata.Object.ETag)
 	}
 	if !cached.Metadata.Object.LastModified.IsZero() {
-		up.Header.Set("If-Modified-Since", cached.Metadata.Object.LastModified.Format(http.TimeFormat))
+		up.Header.Set("If-Modified-Since", cached.Metadata.Object.LastModified.UTC().Format(http.TimeFormat))
 	}
 
 	fetch, err := f.fetchUpstream(up, key, clientHd)
